@@ -31,12 +31,48 @@ func (bc *balCase) implOutcome() string {
 	case strings.Contains(bc.Stderr, "panic:") || strings.Contains(bc.Stderr, "goroutine "):
 		return "panic"
 	case bc.Code == 0:
-		return "ok " + Hex(bc.Stdout)
+		return "ok " + Hex(canonTable(bc.Stdout))
 	case bc.Code == -2:
 		return "timeout"
 	default:
 		return "error"
 	}
+}
+
+// canonTable reduces a rendered text table to its cell contents (column widths and padding are C17's subject, not
+// that of the report properties): separator lines become "+", cells are trimmed, the first cell keeps its indentation.
+func canonTable(out string) string {
+	if !strings.HasPrefix(out, "+-") {
+		return out
+	}
+	var b strings.Builder
+	for _, l := range strings.Split(out, "\n") {
+		switch {
+		case strings.HasPrefix(l, "+"):
+			b.WriteString("+\n")
+		case strings.HasPrefix(l, "|"):
+			cells := strings.Split(strings.TrimSuffix(strings.TrimPrefix(l, "|"), "|"), "|")
+			for i, c := range cells {
+				if i == 0 {
+					cells[i] = strings.TrimRight(strings.TrimPrefix(c, " "), " ")
+				} else {
+					cells[i] = strings.TrimSpace(c)
+				}
+			}
+			b.WriteString(strings.Join(cells, "|") + "\n")
+		default:
+			b.WriteString(l + "\n")
+		}
+	}
+	return b.String()
+}
+
+// canonOutcome applies canonTable to an "ok <hex>" outcome.
+func canonOutcome(o string) string {
+	if strings.HasPrefix(o, "ok ") {
+		return "ok " + Hex(canonTable(UnHex(strings.TrimPrefix(o, "ok "))))
+	}
+	return o
 }
 
 func modelOutcomeCanon(m string) string {
@@ -50,7 +86,7 @@ func modelOutcomeCanon(m string) string {
 	case "panic":
 		return "panic"
 	}
-	return m
+	return canonOutcome(m)
 }
 
 // genBalCases generates n (journal, flags) cases and runs the real `knut balance` on them in parallel.
